@@ -49,7 +49,9 @@ MANIFEST = {
             "(C12_verbatim, C12_verbatim_values, C12_enable_path_witness; expression, sub_configs and a live per-annotation table regenerated and pinned by "
             "C12_enable_path_pinned). The model is "
             "tied to /repo by regenerating the keys popped by _run_component and the CLI's own options into Gen/CliTables (pinned by "
-            "C12_tables_pinned), by building real modules from generated signatures and comparing, for every case, the parser auto_cli constructs "
+            "C12_tables_pinned) and the full statement list of _run_component plus the parser-building calls of _add_component_to_parser "
+            "(add_class_arguments with / without group, required subcommands, per-method --config and add_method_arguments, add_function_arguments, "
+            "sub_configs=True; pinned by C12_statements_pinned), by building real modules from generated signatures and comparing, for every case, the parser auto_cli constructs "
             "and the recorded calls / return value / error class with the model; the property is also evaluated directly on the real code against "
             "an expectation computed from the signature alone.",
     "level_note": "Trusted: Lean kernel; axioms propext/Quot.sound/Classical.choice only; the extractor; the correspondence harness and its generators; "
